@@ -7,5 +7,5 @@ trap 'rm -rf "$D"' EXIT
 mkdir -p "$D/repo" "$D/out"
 (cd /repo && git archive HEAD src) | tar -x -C "$D/repo"
 (cd "$D/repo" && patch -s -p1 < "$P")
-cd /verif
+cd "$(dirname "$0")/.."
 CLIKIT_SRC="$D/repo/src" DSIM_OUT="$D/out" ./check "$PROP" quick ${RUNS:+--runs $RUNS} 2>&1 | grep -v "^KNOWN" | cut -c1-330 | tail -8
